@@ -52,9 +52,14 @@ def run(repo: Repo) -> Result:
     sparam = pos[1] if len(pos) > 1 else "_"
     # size increment
     inc_ok = False
+    from ..guards import conditions as _condsW
+
+    ascii_only = {id(st0) for st0, cs0 in _condsW(w.node) if any(isinstance(c0, ast.Call) and callee_name(c0) == "isascii" and is_name(call_recv(c0), sparam) for c0 in cs0)}
     for st in walk_no_nested(w.node):
         if isinstance(st, ast.AugAssign) and isinstance(st.op, ast.Add) and attr_chain(st.target) == ["self", "size"]:
             v = st.value
+            if id(st) in ascii_only and isinstance(v, ast.Call) and is_name(v.func, "len") and len(v.args) == 1 and is_name(v.args[0], sparam):
+                continue  # under `s.isascii()` the character count IS the UTF-8 byte count
             if (
                 isinstance(v, ast.Call)
                 and is_name(v.func, "len")
@@ -130,26 +135,41 @@ def run(repo: Repo) -> Result:
     res.ob(gb.qual, 2)
     lim_calls = [c for c in calls(gb.node) if callee_name(c) == "LimitedStringIO"]
     bparam = [p for p in gb.params() if p != "self"][0]
-    ok = False
+    # path conditions: a limited child buffer gets `output_stream_limit - <parent>.size` wherever
+    # the parent is a LimitedStringIO (an unlimited parent has nothing to carry) — as one
+    # conditional expression or as two constructions under the isinstance test and its negation
+    from ..guards import canon as _canon7
+    from ..guards import conditions as _conds7
+
     assigns = {t.id: st.value for st in walk_no_nested(gb.node) if isinstance(st, ast.Assign) for t in st.targets if isinstance(t, ast.Name)}
-    for c in lim_calls:
-        kw = {k.arg: k.value for k in c.keywords}
-        v = kw.get("limit") or (c.args[0] if c.args else None)
-        if isinstance(v, ast.BinOp) and isinstance(v.op, ast.Sub) and attr_chain(v.left) == ["self", "env", "output_stream_limit"]:
-            carry = v.right
-            if isinstance(carry, ast.Name) and carry.id in assigns:
-                carry = assigns[carry.id]
-            # buf.size if isinstance(buf, LimitedStringIO) else 0
-            if (
-                isinstance(carry, ast.IfExp)
-                and attr_chain(carry.body) == [bparam, "size"]
-                and isinstance(carry.test, ast.Call)
-                and is_name(carry.test.func, "isinstance")
-                and is_name(carry.test.args[0], bparam)
-                and isinstance(carry.orelse, ast.Constant)
-                and carry.orelse.value == 0
-            ):
-                ok = True
+    is_lim = _canon7(ast.parse(f"isinstance({bparam}, LimitedStringIO)", mode="eval").body)
+    not_lim = _canon7(ast.parse(f"not isinstance({bparam}, LimitedStringIO)", mode="eval").body)
+    LIMIT_CHAIN = ["self", "env", "output_stream_limit"]
+    ok = bool(lim_calls)
+    carried = False
+    for st7, cs7 in _conds7(gb.node):
+        if isinstance(st7, (ast.If, ast.For, ast.While, ast.With, ast.Try)):
+            continue
+        cc7 = {_canon7(c) for c in cs7}
+        for c in [x for x in ast.walk(st7) if isinstance(x, ast.Call) and callee_name(x) == "LimitedStringIO"]:
+            kw = {k.arg: k.value for k in c.keywords}
+            v = kw.get("limit") or (c.args[0] if c.args else None)
+            if isinstance(v, ast.BinOp) and isinstance(v.op, ast.Sub) and attr_chain(v.left) == LIMIT_CHAIN:
+                carry = v.right
+                if isinstance(carry, ast.Name) and carry.id in assigns:
+                    carry = assigns[carry.id]
+                if isinstance(carry, ast.IfExp) and attr_chain(carry.body) == [bparam, "size"] and _canon7(carry.test) == is_lim and isinstance(carry.orelse, ast.Constant) and carry.orelse.value == 0:
+                    carried = True
+                elif attr_chain(carry) == [bparam, "size"] and is_lim in cc7:
+                    carried = True
+                else:
+                    ok = False
+            elif v is not None and attr_chain(v) == LIMIT_CHAIN:
+                if not_lim not in cc7:
+                    ok = False  # no carry although the parent may be limited
+            else:
+                ok = False
+    ok = ok and carried
     if not ok:
         res.add("C07-BUFFER", gb.qual, "carry", "get_buffer must give the child buffer `output_stream_limit - parent.size` (0 only when the parent is unlimited)", gb.file, gb.line)
     # call sites of get_buffer
